@@ -217,8 +217,13 @@ func (w *c04World) line(c *Ctx, in string) {
 			return fmt.Sprintf("%s sameid=%s total=%s concat=%s before=%s", ls, b(sameid), b(total), b(bytes.Equal(cat, file)), b(before && seenUse))
 		})
 		c.Emit("%s => %s", in, out)
-	case "conc": // conc <id> <producers> <each>: real goroutines; producers queue through AddJobToQueue while the listener side checks in
+	case "conc": // conc <id> <producers> <each> [pivot tasks]: real goroutines; producers queue through AddJobToQueue while the listener side checks in;
+		// with a fourth argument one more producer tasks an SMB pivot below the agent: the wrapped jobs (request id 0) go to this agent's queue too
 		a := w.agents[parts[1]]
+		npv := 0
+		if len(parts) > 4 {
+			npv, _ = strconv.Atoi(parts[4])
+		}
 		id64, _ := strconv.ParseUint(parts[1], 16, 32)
 		k := w.keys[parts[1]]
 		np, _ := strconv.Atoi(parts[2])
@@ -244,6 +249,27 @@ func (w *c04World) line(c *Ctx, in string) {
 						}
 					}
 				}(p)
+			}
+			if npv > 0 {
+				child := newAgent(uint32(id64)^0x00a50000, bytes.Repeat([]byte{0x17, 0x71}, 16), bytes.Repeat([]byte{0x44}, 16))
+				child.Pivots.Parent = a
+				a.Pivots.Links = append(a.Pivots.Links, child)
+				wg.Add(1)
+				go func() {
+					defer wg.Done()
+					defer func() {
+						if r := recover(); r != nil {
+							perr.Store("PANIC:pivot-producer:" + strings.ReplaceAll(fmt.Sprint(r), " ", "_"))
+						}
+					}()
+					<-start
+					for i := 0; i < npv; i++ {
+						child.AddJobToQueue(agent.Job{Command: 11, RequestID: 0x7f000000 | uint32(i), Data: []interface{}{int32(i)}})
+						if i%5 == 2 {
+							runtime.Gosched()
+						}
+					}
+				}()
 			}
 			done := make(chan struct{})
 			go func() { wg.Wait(); close(done) }()
@@ -367,7 +393,11 @@ func runC04(c *Ctx) {
 		w.line(c, "reset")
 		id := fmt.Sprintf("%08x", 0x4000+uint32(r.Intn(0xffff)))
 		w.line(c, "agent "+id)
-		w.line(c, fmt.Sprintf("conc %s %d %d", id, 2+r.Intn(5), 200+r.Intn(1800)))
+		if r.Chance(1, 2) {
+			w.line(c, fmt.Sprintf("conc %s %d %d %d", id, 1+r.Intn(3), 200+r.Intn(1800), 200+r.Intn(1800)))
+		} else {
+			w.line(c, fmt.Sprintf("conc %s %d %d", id, 2+r.Intn(5), 200+r.Intn(1800)))
+		}
 	}
 	for c.Lines < c.N {
 		w.line(c, "reset")
